@@ -98,6 +98,20 @@ Definition E2 (v : variant) (b : list N) : gout :=
       else GPass
   end.
 
+(* transport/internal.UnpackMessage (websocket and http inbound handlers, outbound websocket pool listener): the
+   same quoted-base64 detection one layer below the packager, on the raw frame *)
+Definition E2_transport (v : variant) (frame : list N) : gout :=
+  match frame with
+  | [] => GPass
+  | c :: _ =>
+      if (c =? QUOTE) && (List.last frame 0 =? QUOTE) then
+        match guard v (zlen frame <? 2)%Z 0 with
+        | GPass => sliced frame 1 (zlen frame - 1) 21 (fun _ => GPass)    (* msg[1 : len(msg)-1] *)
+        | _ => GPass
+        end
+      else GPass
+  end.
+
 (* ================= E1  jose.Deserialize + JWEDecrypt.Decrypt header handling + packer pubKey *)
 (* an entry of "recipients" as []*Recipient holds it: nil pointer, or a struct whose Header pointer may be nil *)
 Record rcp := { r_ek_ok : bool;                  (* encrypted_key is base64url (library) *)
